@@ -825,6 +825,16 @@ func cryptoStub(m *machine, fn *ssa.Function, name, pkg string) intrinsic {
 				unsupp("Unmarshal into %v of an encoding of %v", p.Elem(), tok.typ)
 			}
 			store(tok.typ, dst, m.jsonProject(tok.typ, deepCopy(tok.val, 0), 0))
+			// a type whose Unmarshal re-derives fields the encoding does not carry
+			// (peers.PeerSet: the encoding holds the Peers only, initMaps rebuilds
+			// the look-up maps): run the real method
+			if named, ok := p.Elem().(*types.Named); ok {
+				if sel := m.eng.prog.MethodSets.MethodSet(p).Lookup(named.Obj().Pkg(), "initMaps"); sel != nil {
+					if im := m.eng.prog.MethodValue(sel); im != nil {
+						m.callSSA(c, 0, im, []value{a[0]}, nil)
+					}
+				}
+			}
 			return iface{}
 		}
 	}
